@@ -1,13 +1,19 @@
 """U11 -- adjust_mappings: the nested create_ranges (stretch ends), R-unnest + R-fnptr"""
 import re
-from .common import emit_struct, guarded
+from vx.rs import LostAnchor
+from .common import emit_struct, guarded, emit_method
 from .u6_root import prelude_types
 
 NAME = 'u11_adjust'
-PROPS = ['C10', 'C05']
+PROPS = ['C10', 'C05', 'C04']
 T = 'src/types.rs'
 
 MUTANTS = [
+    ('types::SourceMap::adjust_mappings', r'while original_range\.end <= adjustment_range\.start', 'while original_range.end < adjustment_range.start'),
+    ('types::SourceMap::adjust_mappings', r'while original_range\.start < adjustment_range\.end', 'while original_range.start <= adjustment_range.end'),
+    ('types::SourceMap::adjust_mappings', r'verif_max_pos\(original_range\.start, adjustment_range\.start\)', 'original_range.start'),
+    ('types::SourceMap::adjust_mappings', r'\.\.original_range\.value', '..adjustment_range.value'),
+    ('types::SourceMap::adjust_mappings', r'\+ col_diff\) as u32', '- col_diff) as u32'),
     ('types::SourceMap::adjust_mappings::create_ranges', r'\(start\.0, u32::MAX\)\)', '(u32::MAX, u32::MAX))'),
     ('types::SourceMap::adjust_mappings::create_ranges', r'verif_map_or_key\(token_iter\.peek\(\), \(u32::MAX, u32::MAX\), key\)', 'verif_map_or_key(token_iter.peek(), (0, 0), key)'),
 ]
@@ -48,3 +54,50 @@ def build(u):
         u.count('R-type-annot', f.rewrite(r'let mut ranges = Vec::new\(\);', 'let mut ranges: Vec<Range> = Vec::new();', expect=1))
     guarded(u, 'types::SourceMap::adjust_mappings::create_ranges',
             lambda: u.get_fn(T, 'create_ranges', impl=r'SourceMap\b', outer='adjust_mappings'), prep, wrap=lambda: None)
+
+    # the sweep itself: adjust_mappings without its two nested items (emitted above)
+    emit_struct(u, T, 'SourceMap')
+    u.spec('tokens.rs')
+    u.prelude('shim_mem.rs')
+    u.prelude('shim_sliceiter.rs')
+    u.spec('adjust.rs')
+
+    def prep_sweep(f):
+        # R-unnest: the nested struct and fn are cut out of the body (they are items of their own above)
+        cut_nested_item(f, r'struct Range\b')
+        cut_nested_item(f, r'fn create_ranges\b')
+        u.count('R-unnest', 2)
+        n = f.rewrite(r'std::mem::take\(&mut self\.tokens\)', 'verif_mem_take_vec(&mut self.tokens)', expect=1)
+        n += f.rewrite(r'\badjustment\.tokens\.clone\(\)', 'verif_clone_tokens(&adjustment.tokens)', expect=1)
+        n += f.rewrite(r'\boriginal_ranges\.iter\(\)', 'verif_slice_iter(&original_ranges)', expect=1)
+        n += f.rewrite(r'std::cmp::max\(', 'verif_max_pos(', expect=1)
+        n += f.rewrite(r'self\.tokens\s*\.sort_unstable_by_key\(', 'verif_sort_unstable_by_key(&mut self.tokens, ', expect=1)
+        u.count('R-shim-call', n)
+        # R-for-slice: `'l: for &x in &v {` is `let mut v__it = v.iter(); 'l: while let Some(x__r) = v__it.next() { let x = *x__r;`
+        # (the definition of `for` over `&Vec`; Verus cannot carry a labelled break out of a nested loop through its `for` encoding)
+        u.count('R-for-slice', f.rewrite(r"(?m)^([ \t]*)('[a-z_]+: )?for &([a-z_]+) in &([a-z_]+) \{",
+                                         r"\1let mut \4__it = verif_slice_iter(&\4);\n\1\2while let Some(\3__r) = \4__it.next() { let \3 = *\3__r;", expect=1))
+        u.count('R-closure', f.annotate_closure('t', 't: &RawToken', '(r: (u32, u32)) ensures r == ($BODY)', expect=3))
+    emit_method(u, T, r'SourceMap\b', 'adjust_mappings', 'types::SourceMap::adjust_mappings', prep=prep_sweep)
+
+
+def cut_nested_item(f, header_rx):
+    """Remove one nested item (with the attributes and comment lines directly above it) from a function's text."""
+    from vx.rs import match_close
+    m = re.search(header_rx, f.mask[f.body_open:f.body_close])
+    if not m:
+        raise LostAnchor('%s: nested item %s not found' % (f.name, header_rx))
+    a = f.body_open + m.start()
+    o = f.mask.index('{', a)
+    e = match_close(f.mask, o) + 1
+    # back to the start of the line, then over attribute / comment lines directly above
+    a = f.text.rfind('\n', 0, a) + 1
+    while True:
+        p = f.text.rfind('\n', 0, a - 1) + 1
+        ln = f.text[p:a].strip()
+        if ln.startswith('#[') or ln.startswith('//'):
+            a = p
+        else:
+            break
+    f.text = f.text[:a] + f.text[e:]
+    f._rescan()
